@@ -7,8 +7,8 @@ Model of one client connection of the simulator at the EtherNet/IP encapsulation
   server/enip/logix.py   process         response = structural copy of the request's encapsulation
   server/enip/ucmm.py    UCMM.request    Register / Unregister / SendRRData (route check, Unconnected Send
                                          unwrap, re-encapsulation) / List* / Legacy; any exception -> status 0x08
-  server/enip/device.py  Connection_Manager.request   locate the target Object of the embedded request, parse and
-                                         execute it (`Cpppo.Logix.exec`), anything failing propagates to the UCMM
+  server/enip/device.py  Connection_Manager.request   hand the embedded request to the Object it designates, else to
+                                         the Message Router (`Cpppo.Logix.exec`); anything failing propagates to the UCMM
 
 A request frame is given in *parsed* form (`Frame`): the 24-byte header fields and a `Body` that names the
 layout of the payload.  The harness builds the bytes of the frame from the same description; the model produces
@@ -195,21 +195,16 @@ def Cip.service : Cip → Nat
   | .req r _ => reqService r
   | .unknown code _ _ => code
 
-/-- `Connection_Manager.request`: `resolve( path )` + `lookup( *ids )` of the embedded request's target -/
-def cmTarget (d : Dev) (p : Path) : Option (Nat × Nat) :=
-  match resolve d.symbols .no p with
-  | some (c, i, _) => if (d.obj? c i).isSome then some (c, i) else none
-  | none => none
-
-/-- `Connection_Manager.request` on the embedded request: `none` = an exception leaves it
-(unknown target Object, unparsable service, reply cannot be produced) -/
+/-- `Connection_Manager.request` on the embedded request: the Object its path designates -- or, when the path
+does not resolve to an existing Object (unknown Tag, unknown Object), the Message Router @2/1 -- parses and
+executes it.  `Cpppo.Logix.exec` starts at the Message Router and routes to the designated Object when it exists,
+which is the same thing; an unknown target is answered by the Message Router itself with CIP status 0x05 (0x16 for
+a Multiple Service Packet).  `none` = an exception leaves `request` (no Object's parser knows the service, or
+the reply cannot be produced). -/
 def cmRequest (d : Dev) (c : Cip) : Dev × Option Bytes :=
-  match cmTarget d c.path with
-  | none => (d, none)
-  | some _ =>
-    match c with
-    | .req r _ => exec d r
-    | .unknown .. => (d, none)
+  match c with
+  | .req r _ => exec d r
+  | .unknown .. => (d, none)
 
 /-- CPF item list -/
 def cpfEncode (items : List (Nat × Bytes)) : Bytes :=
